@@ -37,7 +37,7 @@ TNext == /\ l <= Len(TraceLog)
                    /\ row' = [u \in Users |-> ObsRow(e, u)]
                    /\ confirmed' = (IF AnyAnswers /\ e.out.accepted /\ e.args.pw = dirPw[e.args.user]
                                     THEN confirmed \cup {<<e.args.user, e.args.pw>>}
-                                    ELSE IF AnyAnswers /\ ~e.out.accepted THEN confirmed \ {<<e.args.user, e.args.pw>>} ELSE confirmed)
+                                    ELSE IF AnyAnswers /\ ~e.out.accepted /\ ~dbOut THEN confirmed \ {<<e.args.user, e.args.pw>>} ELSE confirmed)
                    /\ since' = (IF AnyAnswers /\ e.out.accepted /\ e.args.pw = dirPw[e.args.user]
                                 THEN [since EXCEPT ![e.args.user] = 0] ELSE since)
                    /\ mirror' = [u \in Users |-> ObsMirror(e, u)]
